@@ -12,6 +12,7 @@ import PyhamModel.Model.Iham
 import PyhamModel.Model.History
 import PyhamModel.Model.WF
 import PyhamModel.Model.Realises
+import PyhamModel.Model.Spell
 open Pyham
 
 /-! ### s-expressions -/
@@ -247,6 +248,13 @@ def emitIham (T : STree) (nm : Naming) (H : Ham) (o : Out) : Out := Id.run do
     o := o.put "ixml" (nodeKeyS n ++ "|" ++ " ".intercalate (sortS (ex.groups.map elemS)))
     o := o.put "idecl" (nodeKeyS n ++ "|" ++ ";".intercalate (sortS (ex.species.map fun s =>
       s.name ++ ":" ++ ",".intercalate (sortS (s.genes.map fun g => g.id ++ "/" ++ kvS g.xrefs)))))
+    -- the exporter's spelling as a history: export = its encoding; well-formed; recoverable; realised by n
+    let sp := spell false false n
+    o := o.put "ispell" (nodeKeyS n ++ "|" ++
+      (if " ".intercalate (sortS ((encode T nm n.tx sp).map elemS)) == " ".intercalate (sortS (ex.groups.map elemS)) then "1" else "0") ++
+      (if String.join ((encode T nm n.tx sp).map elemRaw) == String.join (ex.groups.map elemRaw) then "1" else "0") ++
+      (if wfh T n.tx sp then "1" else "0") ++ (if recoverable n.tx sp then "1" else "0") ++
+      (if realisesB n.tx sp (stripNode n) then "1" else "0"))
     if n.kids.length ≥ 2 then
       match load T nm ex with
       | .error e => o := o.put "irt" (nodeKeyS n ++ "|err:" ++ e.toStr)
